@@ -210,38 +210,49 @@ Definition discover_sign (m M : value) : option sign :=
   else if vleb M (VNum 0) then Some (if vltb M (VNum 0) then SNegative else SNonPositive)
   else None.
 
+(* one rule per constraint kind; every rule is silent when there are no records *)
+Definition has_rows (c : column) : bool := Z.ltb 0 (nrecords c).
+Definition is_str (c : column) : bool := ctype_eqb (c_type c) TString.
+Definition nunique_used (c : column) : Z :=
+  if is_str c || ctype_eqb (c_type c) TInt then nunique c else (-1).
+
+Definition d_min (c : column) : list constr :=
+  if has_rows c && negb (is_str c)
+  then match col_min c with Some m => [CMin (Some (exact_bound m))] | None => [] end else [].
+Definition d_max (c : column) : list constr :=
+  if has_rows c && negb (is_str c)
+  then match col_max c with Some M => [CMax (Some (exact_bound M))] | None => [] end else [].
+Definition d_min_length (c : column) : list constr :=
+  if has_rows c && is_str c
+  then match zmin_list (lengths c) with Some m => [CMinLen (Some m)] | None => [] end else [].
+Definition d_max_length (c : column) : list constr :=
+  if has_rows c && is_str c
+  then match zmax_list (lengths c) with Some M => [CMaxLen (Some M)] | None => [] end else [].
+Definition d_sign (c : column) : list constr :=
+  if has_rows c && negb (is_str c) && negb (ctype_eqb (c_type c) TDate)
+  then match col_min c, col_max c with
+       | Some m, Some M => match discover_sign m M with Some s => [CSign (Some s)] | None => [] end
+       | _, _ => []
+       end
+  else [].
+Definition d_max_nulls (c : column) : list constr :=
+  if has_rows c && Z.ltb (null_count c) 2 then [CMaxNulls (Some (null_count c))] else [].
+Definition d_no_duplicates (c : column) : list constr :=
+  if has_rows c && Z.eqb (nunique_used c) (non_null_count c) && Z.ltb 1 (nunique_used c)
+     && negb (ctype_eqb (c_type c) TReal)
+  then [CNoDup (Some true)] else [].
+Definition d_allowed (c : column) : list constr :=
+  if has_rows c && is_str c && Z.leb (nunique c) max_categories && Z.ltb 0 (nunique c)
+  then [CAllowed (Some (uniques c))] else [].
 (* rex: an oracle list (what rexpy returned is outside this model); None = not requested *)
+Definition d_rex (c : column) (rex : option (list bool)) : list constr :=
+  if is_str c then match rex with Some oks => [CRex (Some oks)] | None => [] end else [].
+
 Definition discover (c : column) (rex : option (list bool)) : option (list constr) :=
   match c_type c with
   | TOther => None
-  | t =>
-    let n := nrecords c in
-    let nn := non_null_count c in
-    let nnull := null_count c in
-    let is_str := ctype_eqb t TString in
-    let nu := if is_str || ctype_eqb t TInt then nunique c else (-1) in
-    let body :=
-      if Z.ltb 0 n then
-        (if is_str then []
-         else match col_min c with Some m => [CMin (Some (exact_bound m))] | None => [] end ++
-              match col_max c with Some M => [CMax (Some (exact_bound M))] | None => [] end) ++
-        (if is_str && Z.ltb 0 nn
-         then match zmin_list (lengths c), zmax_list (lengths c) with
-              | Some m, Some M => [CMinLen (Some m); CMaxLen (Some M)]
-              | _, _ => []
-              end
-         else []) ++
-        (if is_str || ctype_eqb t TDate then []
-         else match col_min c, col_max c with
-              | Some m, Some M => match discover_sign m M with Some s => [CSign (Some s)] | None => [] end
-              | _, _ => if Z.ltb 0 nn then [] else []
-              end) ++
-        (if Z.ltb nnull 2 then [CMaxNulls (Some nnull)] else []) ++
-        (if Z.eqb nu nn && Z.ltb 1 nu && negb (ctype_eqb t TReal) then [CNoDup (Some true)] else []) ++
-        (if is_str && Z.leb nu max_categories && Z.ltb 0 nu then [CAllowed (Some (uniques c))] else [])
-      else [] in
-    Some ([CType (Some [t])] ++ body ++
-          (if is_str then match rex with Some oks => [CRex (Some oks)] | None => [] end else []))
+  | t => Some ([CType (Some [t])] ++ d_min c ++ d_max c ++ d_min_length c ++ d_max_length c ++ d_sign c ++
+               d_max_nulls c ++ d_no_duplicates c ++ d_allowed c ++ d_rex c rex)
   end.
 
 (* ---------------------------------------------------------------- a whole verification *)
